@@ -235,6 +235,8 @@ def _agg_body(win, k0, k1, c0, c1, twokeys, pattern):
     elif pattern == 2: kw = dict(min_over=[va, vb], max_over=[vb, va], stdev_over=va); aggs = {'min': [cn[0], cn[1]], 'max': [cn[1], cn[0]], 'stdev': [cn[0]]}
     elif pattern == 3: kw = dict(sum_over=va, apply={'total': (va, sum), (cn[0] or 'col'): (vb, len)}); aggs = {'sum': [cn[0]]}
     elif pattern == 5: kw = dict(sum_over=[va, va, va], count_over=[vb, vb, vb]); aggs = {'sum': [cn[0]] * 3, 'count': [cn[1]] * 3}
+    elif pattern == 6 and ((doc_sanitize(cn[0] or 'col') or 'col') in public_api() or keyword.iskeyword(doc_sanitize(cn[0] or 'col') or 'col')):
+        return None      # reserved column names get an extra underscore; the collision this pattern builds would not occur
     elif pattern == 6: kw = dict(sum_over=[va, va], apply={(doc_sanitize(cn[0] or 'col') or 'col') + '_sum2': (vb, len), 'total': (va, sum)}); aggs = {'sum': [cn[0], cn[0]]}
     else: kw = dict(sum_over=[va, vb], mean_over=[va, vb], min_over=va, max_over=va, count_over=[va, vb], stdev_over=va); aggs = {'sum': [cn[0], cn[1]], 'mean': [cn[0], cn[1]], 'min': [cn[0]], 'max': [cn[0]], 'count': [cn[0], cn[1]], 'stdev': [cn[0]]}
     f = t.window if win else t.aggregate
@@ -283,7 +285,9 @@ def h_agg(k0: int, k1: int, c0: int, c1: int, twokeys: bool, pattern: int) -> bo
     H.reset()
     if H.skip(locals()): return True
     R = list(range(NN))
-    if not H.concrete(_agg_body, H.cfg('win'), H.among(R, k0), H.among(R, k1), H.among(R, c0), H.among(R, c1), True if twokeys else False, H.cfg('pattern')): return False
+    r = H.concrete(_agg_body, H.cfg('win'), H.among(R, k0), H.among(R, k1), H.among(R, c0), H.among(R, c1), True if twokeys else False, H.cfg('pattern'))
+    if r is False: return False
+    if r is None: return True
     return H.ok()
 
 
